@@ -36,44 +36,62 @@ def printable(xs) -> bool:
     return all(32 <= ord(c) <= 126 for x in xs for c in x)
 
 
-def run_cases(ck, name, defs, width):
-    """defs: list of Gallina terms of type `list bool` (each of length `width`); returns list of lists of bool,
-    or None for a shard coqc could not evaluate"""
-    d = common.SCRATCH / "c17_cases"
-    d.mkdir(parents=True, exist_ok=True)
-    out_all = []
-    shards = [defs[i:i + 400] for i in range(0, len(defs), 400)]
-    procs = []
-    for k, sh in enumerate(shards):
-        f = d / ("Cases_%s_%d.v" % (name, k))
-        body = [CASE_HEADER]
-        for j, t in enumerate(sh):
-            body.append("Definition c%d : list bool := %s." % (j, t))
-        body.append("Definition all_cases : list bool := concat [%s]." % "; ".join("c%d" % j for j in range(len(sh))))
-        body.append("Eval vm_compute in all_cases.")
-        f.write_text("\n".join(body) + "\n")
-        procs.append((f, len(sh)))
-    # coqc shards run one after another would dominate the quick tier: run them in parallel
-    import subprocess
-    running = []
-    for f, n in procs:
-        p = subprocess.Popen("timeout 900 coqc -Q %s Print %s" % (common.COQ / ENGINE, f), shell=True, cwd=str(d),
-                             stdout=subprocess.PIPE, stderr=subprocess.STDOUT, text=True)
-        running.append((p, f, n))
-        while sum(1 for q, _, _ in running if q.poll() is None) >= 12:
-            time.sleep(0.2)
-    for p, f, n in running:
-        out, _ = p.communicate()
-        m = re.search(r"=\s*\[(.*?)\]\s*:\s*list bool", out, flags=re.S)
-        vals = re.findall(r"true|false", m.group(1)) if m else []
-        if p.returncode != 0 or len(vals) != n * width:
-            ck.broken_obligation("model-evaluation:%s" % f.name, "rc=%s, expected %d verdicts, got %d: %s"
-                                 % (p.returncode, n * width, len(vals), out[-400:]))
-            out_all += [None] * n
-            continue
-        vals = [v == "true" for v in vals]
-        out_all += [vals[i * width:(i + 1) * width] for i in range(n)]
-    return out_all
+class Cases:
+    """Gallina terms of type `list bool` evaluated by coqc (vm_compute) in shards that run in parallel"""
+
+    SHARD = 120
+    MAXPAR = 10
+
+    def __init__(self, ck):
+        self.ck = ck
+        self.d = common.SCRATCH / "c17_cases"
+        if self.d.exists():
+            import shutil
+            shutil.rmtree(self.d, ignore_errors=True)
+        self.d.mkdir(parents=True, exist_ok=True)
+        self.jobs = []  # (stream, file, n cases, width, Popen)
+        self.pending = []
+
+    def add(self, name, defs, width):
+        for k in range(0, len(defs), self.SHARD):
+            sh = defs[k:k + self.SHARD]
+            f = self.d / ("Cases_%s_%d.v" % (name, k // self.SHARD))
+            body = [CASE_HEADER]
+            for j, t in enumerate(sh):
+                body.append("Definition c%d : list bool := %s." % (j, t))
+            body.append("Definition all_cases : list bool := concat [%s]." % "; ".join("c%d" % j for j in range(len(sh))))
+            body.append("Eval vm_compute in all_cases.")
+            f.write_text("\n".join(body) + "\n")
+            self.pending.append((name, f, len(sh), width))
+
+    def run(self):
+        """-> {stream: [list of bool | None per case]}"""
+        import subprocess
+        running, todo = [], list(self.pending)
+        done = []
+        while todo or running:
+            while todo and len(running) < self.MAXPAR:
+                name, f, n, width = todo.pop(0)
+                p = subprocess.Popen("timeout 900 coqc -Q %s Print %s" % (common.COQ / ENGINE, f), shell=True,
+                                     cwd=str(self.d), stdout=subprocess.PIPE, stderr=subprocess.STDOUT, text=True)
+                running.append((name, f, n, width, p))
+            for job in list(running):
+                if job[4].poll() is not None:
+                    running.remove(job)
+                    done.append(job + (job[4].communicate()[0],))
+            time.sleep(0.1)
+        res = {}
+        for name, f, n, width, p, out in sorted(done, key=lambda j: (j[0], int(re.search(r"_(\d+)\.v$", j[1].name).group(1)))):
+            m = re.search(r"=\s*\[(.*?)\]\s*:\s*list bool", out, flags=re.S)
+            vals = re.findall(r"true|false", m.group(1)) if m else []
+            if p.returncode != 0 or len(vals) != n * width:
+                self.ck.broken_obligation("model-evaluation:%s" % f.name, "rc=%s, expected %d verdicts, got %d: %s"
+                                          % (p.returncode, n * width, len(vals), out[-400:]))
+                res.setdefault(name, []).extend([None] * n)
+                continue
+            vals = [v == "true" for v in vals]
+            res.setdefault(name, []).extend(vals[i * width:(i + 1) * width] for i in range(n))
+        return res
 
 
 def model_output(term: str) -> str:
@@ -87,8 +105,10 @@ def model_output(term: str) -> str:
 
 def run(ck: common.Check):
     # ------------------------------------------------------------------ 1. translator + proofs
+    t_start = time.time()
     ok_gen = ck.gen(ENGINE)
     ok_build = ck.coq_build(ENGINE, timeout=900)
+    ck.log("translator + coq build: %.1fs" % (time.time() - t_start))
     ck.cov["trusted_base"] = [
         "Coq 8.16.1 kernel (coqc, full .vo build of coq/Print); all nine theorems of Props_C17.v are closed under the global context",
         "translator/py2coq_printenv.py (fail-closed ast translator of class PrintEnv, ~230 lines) and the reading of "
@@ -128,16 +148,18 @@ def run(ck: common.Check):
     n_prog = ck.n(70, 900)
     n_expr = ck.n(400, 3000)
     n_parse = ck.n(400, 3000)
-    budget = ck.n(75, 780)
+    budget = ck.n(70, 780)
     sdir = common.scratch_dir("c17_run")
     out = sdir / "impl.jsonl"
     seed = ck.rng.getrandbits(40)
     cmd = [common.PY, str(common.VERIF / "harness" / "c17_impl.py"), str(seed), str(n_prog), str(n_expr), str(n_parse),
            "1", str(out), str(budget)]
+    t_impl = time.time()
     rc, log = common.sh(cmd, timeout=budget + 300, env=common.exo_env(), cwd=str(sdir))
     if rc != 0 or not out.exists():
         ck.broken_obligation("impl-driver", "rc=%s %s" % (rc, log[-800:]))
         return
+    ck.log("implementation driver: %.1fs" % (time.time() - t_impl))
     recs = [json.loads(l) for l in open(out)]
     procs = [r for r in recs if r["t"] == "proc"]
     exprs = [r for r in recs if r["t"] == "expr"]
@@ -150,20 +172,32 @@ def run(ck: common.Check):
            % (len(procs), len(exprs), len(parses), len(rejects), len(bad), stats))
     ck.cov["impl_stats"] = stats
     ck.cov["programs_rejected_by_front_end"] = len(rejects)
+    ill = [r for r in recs if r["t"] == "illformed"]
+    ck.cov["illformed_procedures_skipped"] = {"count": len(ill), "samples": [
+        {"why": r["why"], "ops_applied": r["ops_applied"], "printed": r["printed"][:600]} for r in ill[:3]]}
+    skipped = [r for r in recs if r["t"] == "skip"]
+    ck.cov["roundtrip_skipped_objects_not_nameable"] = {"count": len(skipped), "why": sorted({r["why"] for r in skipped})[:5]}
     if bad:
         ck.broken_obligation("impl-driver-errors", json.dumps(bad[0])[:900])
     if len(procs) < n_prog // 3 and not stats.get("stopped_on_time_budget"):
         ck.broken_obligation("generator-collapse", "only %d procedures printed" % len(procs))
 
     # ------------------------------------------------------------------ 3. correspondence (model in coqc)
+    t_corr = time.time()
     model_ok = (common.COQ / ENGINE / "ModelCheck.vo").exists()
     if not model_ok:
         ck.broken_obligation("correspondence:not-run", "coq/Print/ModelCheck.vo missing")
     else:
         usable = [r for r in procs if printable(r["lines"]) and printable(r["names"])]
-        defs = ["ck_proc %s %s %s %s" % (r["coq"], r["ops"], coq_strs(r["names"]), coq_strs(r["lines"])) for r in usable]
-        res = run_cases(ck, "proc", defs, 3)
-        for r, v in zip(usable, res):
+        cases = Cases(ck)
+        cases.add("proc", ["ck_proc %s %s %s %s" % (r["coq"], r["ops"], coq_strs(r["names"]), coq_strs(r["lines"]))
+                           for r in usable], 3)
+        cases.add("expr", ["ck_expr %s %s %s" % (r["coq"], coq_str(r["text"]), "(Some %s)" % r["parsed"] if r["parsed"] else "None")
+                           for r in exprs], 2)
+        cases.add("parse", ["ck_parse %s %s" % (r["toks"], "(Some %s)" % r["parsed"] if r["parsed"] else "None")
+                            for r in parses], 1)
+        allres = cases.run()
+        for r, v in zip(usable, allres.get("proc", [])):
             sched = bool(r["applied"])
             tag = "%s:%s%s%s" % (r["gen"], "scheduled" if sched else "as-written", ":dup-names" if r["dup_names"] else "",
                                  ":renamed" if r["renamed"] else "")
@@ -184,10 +218,7 @@ def run(ck: common.Check):
                             term = "%s %s%s" % (what, r["coq"], ")" if j == 1 else "")
                             detail["model"] = model_output(term)
                         ck.corr_diverge(s, detail)
-        defs = ["ck_expr %s %s %s" % (r["coq"], coq_str(r["text"]), "(Some %s)" % r["parsed"] if r["parsed"] else "None")
-                for r in exprs]
-        res = run_cases(ck, "expr", defs, 2)
-        for r, v in zip(exprs, res):
+        for r, v in zip(exprs, allres.get("expr", [])):
             tag = ("wf" if r["wf_only"] else "any") + (":parens" if "(" in r["text"] else "")
             ck.case("expr-text", r["coq"], len(r["text"]) > 3, {"tree": r["coq"], "real_text": r["text"]}, tag=tag)
             ck.case("expr-parse", r["coq"], len(r["text"]) > 3, None, tag=tag)
@@ -205,9 +236,7 @@ def run(ck: common.Check):
                 ck.corr_diverge("expr-parse", {"text": r["text"], "real_front_end": r["parsed"] or r["err"],
                                                "model": model_output("parse_expr (print_toks %s 0)" % r["coq"])
                                                if ck.stream("expr-parse")["diverge"] < 2 else ""})
-        defs = ["ck_parse %s %s" % (r["toks"], "(Some %s)" % r["parsed"] if r["parsed"] else "None") for r in parses]
-        res = run_cases(ck, "parse", defs, 1)
-        for r, v in zip(parses, res):
+        for r, v in zip(parses, allres.get("parse", [])):
             ck.case("parse-tokens", r["text"], len(r["text"]) > 5, {"text": r["text"], "real_front_end": r["parsed"] or r["err"]},
                     tag="accepted" if r["parsed"] else "rejected")
             if v is None:
@@ -218,6 +247,7 @@ def run(ck: common.Check):
                 ck.corr_diverge("parse-tokens", {"text": r["text"], "real_front_end": r["parsed"] or r["err"],
                                                  "model": model_output("parse_toks %s" % r["toks"])
                                                  if ck.stream("parse-tokens")["diverge"] < 2 else ""})
+    ck.log("model evaluation (coqc, vm_compute): %.1fs" % (time.time() - t_corr))
     for s, st in sorted(ck.streams.items()):
         ck.log("stream %-22s cases %6d agree %6d diverge %d" % (s, st["cases"], st["agree"], st["diverge"]))
 
